@@ -197,9 +197,10 @@ def witnesses():
     nightly toolchain.  Returns {doctest title: 'ok'|'FAILED'} and the raw output.  Results are
     cached by the content hash of everything the binding crate is built from."""
     import json
+    REPO = os.environ.get("VERIF_WITNESS_REPO", globals()["REPO"])   # C-only self-test runs use the real tree's binding
     src = os.path.join(HERE, "witness", "src", "lib.rs")
-    hsh = tree_hash([REPO + "/lib", src, REPO + "/Cargo.lock"], exts={".rs", ".toml", ".c", ".h", ".lock"})
-    cache = os.path.join(CACHE, "witness", hsh + ".json")
+    hsh = tree_hash([REPO + "/lib/binding_rust", REPO + "/lib/Cargo.toml", src, REPO + "/Cargo.lock"], exts={".rs", ".toml", ".lock"})
+    cache = os.path.join(BIN_CACHE if os.environ.get("VERIF_WITNESS_REPO") else CACHE, "witness", hsh + ".json")
     if os.path.exists(cache):
         return json.load(open(cache))
     wdir = os.path.join(CACHE, "witness", "crate")
